@@ -5,6 +5,7 @@ CONSTANTS
   MaxData = 1
   MaxHist = 9
   RegWhileClaimed = "accept"
+  AltSpelling = "off"
 VIEW View
 CONSTRAINT Bound
 CHECK_DEADLOCK FALSE
